@@ -616,7 +616,14 @@ async fn client_handler<State>(
         let status = response.status_code;
         let response_bytes: Vec<u8> = response.into();
 
-        if let Err(e) = stream.write_all(&response_bytes).await {
+        // A TLS stream keeps what the socket does not take at once in its own buffer, so the response has
+        //   only been sent completely once the stream has been flushed.
+        let written = match stream.write_all(&response_bytes).await {
+            Ok(()) => stream.flush().await,
+            Err(e) => Err(e),
+        };
+
+        if let Err(e) = written {
             monitor.send(
                 Event::new(EventType::RequestServedError)
                     .with_peer(addr)
